@@ -323,7 +323,7 @@ _HAND_T = _HAND_Q + [("HandMC.tla", c, 1800) for c in ("Hand_3p_dealerblind.cfg"
 _LIFE_Q = [("TableLife.tla", "TL_fixed_q.cfg", 900), ("TableLife.tla", "TL_leave.cfg", 900), ("TableLife.tla", "TL_live.cfg", 600)]
 _LIFE_T = [("TableLife.tla", "TL_fixed.cfg", 3000), ("TableLife.tla", "TL_leave.cfg", 900), ("TableLife.tla", "TL_live.cfg", 600)]
 _SM_Q = [("SeatManagerMC.tla", "SM_mc3.cfg", 600), ("SeatManagerMC.tla", "SM_mc4.cfg", 900)]
-_SM_T = _SM_Q + [("SeatManagerMC.tla", "SM_mc4sd.cfg", 600), ("SeatManagerMC.tla", "SM_mc5.cfg", 3000)]
+_SM_T = _SM_Q + [("SeatManagerMC.tla", "SM_mc4sd.cfg", 600), ("SeatManagerMC.tla", "SM_mc5.cfg", 7200)]
 _WRAP = [("HandWrapper.tla", c, 600) for c in ("HW_2p.cfg", "HW_2p_fault.cfg", "HW_3p_silent.cfg", "HW_3p_deadbtn.cfg", "HW_3p_fault2.cfg")]
 MODELS = {
  "C01": {"quick": _HAND_Q, "thorough": _HAND_T},
